@@ -534,14 +534,17 @@ func periodStartRule(w *World, r *Report, rule string, fns []*ssa.Function) {
 						if len(vals) == 0 {
 							good = false
 						}
+						bind := bindParams(h, hc)
 						for _, v := range vals {
+							// in the caller's terms: the helper may be handed params, or params.StartTime itself
+							v = translateValue(v, bind, 0)
 							if isNil {
 								if !loadOfField(v, "StartTime", nil) {
 									good = false
 								}
 							} else {
 								root, ok := derefOfPtrField(v, "EndTime")
-								if !ok || root != ssa.Value(prevP) {
+								if !ok || root != prev {
 									good = false
 								}
 							}
